@@ -380,6 +380,9 @@ type StoreFactory struct {
 	inner quickfix.MessageStoreFactory
 	Last  *StoreRec
 	All   []*StoreRec
+	// Fail, when set, is consulted before every write that assigns an outbound number; a non-nil error is
+	// returned to the engine instead of performing the write (a store that refuses: disk full, SQL error).
+	Fail func(op string, n int) error
 }
 
 func (f *StoreFactory) Create(sid quickfix.SessionID) (quickfix.MessageStore, error) {
@@ -442,6 +445,12 @@ func (s *StoreRec) NextSenderMsgSeqNum() int {
 func (s *StoreRec) NextTargetMsgSeqNum() int { return s.inner.NextTargetMsgSeqNum() }
 func (s *StoreRec) IncrNextSenderMsgSeqNum() error {
 	simsync.Yield("store:IncrSender")
+	if f := s.eng.SF.Fail; f != nil {
+		if err := f("IncrSender", s.inner.NextSenderMsgSeqNum()); err != nil {
+			s.rec("IncrSender", s.inner.NextSenderMsgSeqNum(), 0, nil, err)
+			return err
+		}
+	}
 	err := s.inner.IncrNextSenderMsgSeqNum()
 	s.rec("IncrSender", s.inner.NextSenderMsgSeqNum(), 0, nil, err)
 	return err
@@ -472,6 +481,13 @@ func (s *StoreRec) SaveMessage(n int, m []byte) error {
 }
 func (s *StoreRec) SaveMessageAndIncrNextSenderMsgSeqNum(n int, m []byte) error {
 	simsync.Yield("store:SaveIncr")
+	if f := s.eng.SF.Fail; f != nil {
+		if err := f("SaveIncr", n); err != nil {
+			s.rec("SaveIncr", n, s.inner.NextSenderMsgSeqNum(), append([]byte(nil), m...), err)
+			simsync.Yield("store:SaveIncr.done")
+			return err
+		}
+	}
 	err := s.inner.SaveMessageAndIncrNextSenderMsgSeqNum(n, m)
 	s.rec("SaveIncr", n, s.inner.NextSenderMsgSeqNum(), append([]byte(nil), m...), err)
 	simsync.Yield("store:SaveIncr.done")
